@@ -33,6 +33,9 @@ type hist struct {
 // the check into the evidence counters).
 var stats = map[string]int{}
 
+// tprocRow: the type-URL constant of the current tproc case (for the per-row counters).
+var tprocRow string
+
 func stat(keys ...string) {
 	for _, k := range keys {
 		stats[k]++
@@ -59,6 +62,9 @@ func note(proto, t string, e expect) expect {
 		answered = "answered"
 	} else if e.either {
 		answered = "observation"
+	}
+	if t == "T" && tprocRow != "" {
+		t = "row." + tprocRow // stream tproc: the type-URL constant of the case
 	}
 	stat("clause."+e.clause, "class."+proto+"."+answered, "type."+t)
 	return e
@@ -201,6 +207,14 @@ func (o *histOracle) expectDelta0(t string, sub, unsub, init []string, nonce str
 		return expect{clause: "stale-nonce-silent"}
 	}
 	detached := isErr || (nonce != "" && nonce != h.delivered)
+	if detached && carries {
+		// the class of finding F-C04-2: a subscription change attached to a NACK / to a stale ACK
+		if isErr {
+			stat("class.delta.nack-carrying-a-change")
+		} else {
+			stat("class.delta.stale-ack-carrying-a-change")
+		}
+	}
 	changed := false
 	if managedType(t) && h.wild {
 		changed = carries
